@@ -143,7 +143,7 @@ macro_rules! __priv_next_ai_access {
     };
     ( ($($lhs:tt)*) $var:ident , ($field:tt $($rem_fields:tt)*), $($rem:tt)+ ) => {
         $($lhs)* = $var.$field;
-        $crate::__priv_assign_tuple!($var,($($rem_fields:tt)*), $($rem)+)
+        $crate::__priv_assign_tuple!($var,($($rem_fields)*), $($rem)+)
     };
 }
 
